@@ -268,7 +268,8 @@ def subjects(ctx, n_corpus, n_gen):
         has_class = any(meta.decl_kind(n) == "class" for _p, n, _l in meta.walk_decls(doc))
         subs.append(dict(name=e.yaml[:-5], yaml=e.text(), argv=e.argv(), lang=lang, has_class=has_class,
                          search=[corpus.INPUT], plain=not e.cmdline))
-    for m in smallgen.sample_models(ctx.seed, n_gen):
+    # (generated C libraries too: histories have to mix the two languages)
+    for m in smallgen.sample_models(ctx.seed, n_gen) + smallgen.sample_models(ctx.seed + 3, max(3, n_gen // 2), lang="c"):
         has_class = any(d["kind"] == "class" for d in m["decls"])
         subs.append(dict(name=m["library"], yaml=smallgen.to_yaml(m), argv=[], lang=m["language"],
                          has_class=has_class, search=[], plain=True))
@@ -314,6 +315,25 @@ def run(ctx):
             steps.append(s)
         return steps, draw(st.integers(0, 3)) == 0
     hs = smallgen.sample(history(), ctx.seed + 11, nh)
+    # systematic part: every ordered pair of a C and a C++ corpus library out of a fixed set whose statement
+    # tables have language-specific clauses (structs, strings, pointers, cdesc), the same library in both languages
+    byname = {e.name: e for e in corpus.entries()}
+    cset = [n for n in ("struct-c", "pointers-c", "clibrary", "generic") if n in byname]
+    xset = [n for n in ("struct-cxx", "pointers-cxx", "strings", "cdesc", "forward") if n in byname]
+    if not quick:
+        cset += [n for n in ("struct-class-c", "enum-c", "interface", "structlist") if n in byname]
+        xset += [n for n in ("struct-class-cxx", "enum-cxx", "vectors", "ownership", "classes") if n in byname]
+
+    def sub_of(n):
+        e = byname[n]
+        doc = meta.load(e.text())
+        return dict(name=e.yaml[:-5], yaml=e.text(), argv=e.argv(), lang=e.language_arg() or doc.get("language", "c++"),
+                    has_class=any(meta.decl_kind(nd) == "class" for _p, nd, _l in meta.walk_decls(doc)),
+                    search=[corpus.INPUT], entry="main")
+    for a in cset:
+        for b in xset:
+            hs.append(([sub_of(a), sub_of(b)], False))
+            hs.append(([sub_of(b), sub_of(a)], False))
     hjobs = [(i, steps, patch) for i, (steps, patch) in enumerate(hs)]
     for out in core.pool_map(_hist_job, hjobs):
         _collect(ctx, out, "c")
